@@ -33,6 +33,7 @@ import (
 	"reflect"
 	"runtime/metrics"
 	"sort"
+	"strings"
 	"sync"
 	"testing"
 
@@ -110,6 +111,12 @@ func (tg verifC10Target) encode(m any) (b []byte, tooLong bool, err error) {
 	switch tg.Kind {
 	case 0:
 		_, err = WriteMessage(&buf, m.(Message), 0)
+		if err != nil {
+			var raw bytes.Buffer
+			if e2 := m.(Message).Encode(&raw, 0); e2 == nil && raw.Len() > MaxMsgBody {
+				err = fmt.Errorf("%w [%s]", err, verifC10Grows)
+			}
+		}
 	case 1:
 		err = EncodeFailureMessage(&buf, m.(FailureMessage), 0)
 	default:
@@ -124,6 +131,19 @@ func (tg verifC10Target) encode(m any) (b []byte, tooLong bool, err error) {
 		}
 	}
 	return buf.Bytes(), false, err
+}
+
+// verifC10Grows marks a re-encoding that fails only because the decoded
+// value encodes to more than MaxMsgBody bytes.
+const verifC10Grows = "grows-beyond-max-payload"
+
+// verifC10Actual names the message actually decoded (header-mutated inputs
+// dispatch to another type than the target's).
+func verifC10Actual(tg verifC10Target, m any) string {
+	if msg, ok := m.(Message); ok && tg.Kind == 0 {
+		return fmt.Sprintf("msg%d/%T", msg.MsgType(), msg)
+	}
+	return tg.Name
 }
 
 // ------------------------------------------------------------------ valid values
@@ -673,6 +693,17 @@ func verifC10ZlibInput(r *verifRng, tg verifC10Target, b0 []byte) []byte {
 	chain := r.Bytes(32)
 	lenb := []byte{byte((len(comp) + 1) >> 8), byte(len(comp) + 1)}
 	switch {
+	case tg.Kind == 0 && tg.Msg == MsgQueryShortChanIDs && r.Chance(1, 5):
+		// encoded_short_ids of length 0 (not even the encoding byte),
+		// filled up to a PRNG total with one unknown TLV record.
+		out = append(out, chain...)
+		out = append(out, 0, 0)
+		total := []int{65535, 65534, 65533, 200, 41}[r.Intn(5)]
+		if room := total - len(out) - 4; room >= 0xfd {
+			out = append(out, 0x65, 0xfd, byte(room>>8), byte(room))
+			out = append(out, r.Bytes(room)...)
+		}
+		return out
 	case tg.Kind == 0 && tg.Msg == MsgQueryShortChanIDs:
 		out = append(out, chain...)
 		out = append(out, lenb...)
@@ -766,8 +797,13 @@ func (h *verifC10H) checkBytes(tg verifC10Target, class string, b []byte, measur
 		vc.Count("failpkt_over_256", 1)
 		return true, nil
 	}
+	actual := verifC10Actual(tg, m1)
 	if err != nil {
-		vc.Violation("fixpoint_reencode", tg.Name, fmt.Sprintf(
+		key := actual
+		if strings.Contains(err.Error(), verifC10Grows) {
+			key += "|" + verifC10Grows
+		}
+		vc.Violation("fixpoint_reencode", key, fmt.Sprintf(
 			"decode accepted the input but the decoded message does not encode: %v", err),
 			h.witness(tg, class, b))
 		return true, nil
@@ -778,7 +814,7 @@ func (h *verifC10H) checkBytes(tg verifC10Target, class string, b []byte, measur
 		return true, b1
 	}
 	if err != nil {
-		vc.Violation("fixpoint_redecode", tg.Name, fmt.Sprintf(
+		vc.Violation("fixpoint_redecode", actual, fmt.Sprintf(
 			"b->m1->b1: decode(b1) failed: %v; b1=%s", err, verifHex(b1[:min(len(b1), 512)])),
 			h.witness(tg, class, b))
 		return true, b1
@@ -793,7 +829,7 @@ func (h *verifC10H) checkBytes(tg verifC10Target, class string, b []byte, measur
 		for d < len(b1) && d < len(b2) && b1[d] == b2[d] {
 			d++
 		}
-		vc.Violation("fixpoint_bytes", tg.Name, fmt.Sprintf(
+		vc.Violation("fixpoint_bytes", actual, fmt.Sprintf(
 			"b1 != b2 (err=%v) len(b1)=%d len(b2)=%d first difference at %d; b1=%s b2=%s",
 			err, len(b1), len(b2), d, verifHex(b1[:min(len(b1), 400)]),
 			verifHex(b2[:min(len(b2), 400)])), h.witness(tg, class, b))
@@ -922,6 +958,11 @@ func (h *verifC10H) runCase(r *verifRng, tg verifC10Target, tgs []verifC10Target
 			}
 			if tg.Kind == 0 && tg.Msg == MsgNodeAnnouncement && r.Chance(1, 4) {
 				class = "addrs"
+			}
+			if tg.Kind == 0 && (tg.Msg == MsgQueryShortChanIDs ||
+				tg.Msg == MsgReplyChannelRange) && r.Chance(1, 4) {
+
+				class = "zlib"
 			}
 			oth := other
 			if r.Bool() && len(valids) > 1 {
